@@ -29,6 +29,7 @@ type c05Stim struct {
 	B  string `json:"b"`
 	K  int    `json:"k"`
 	FB bool   `json:"fb"`
+	C  string `json:"c"` // third operand of a comparison ("" = two operands)
 }
 
 var (
@@ -104,6 +105,15 @@ func c05(args []string) {
 			panic("bad operand " + st.A + " " + st.B)
 		}
 		h.Eval(s, fmt.Sprintf("(setq na %s) (setq nb %s)", st.A, st.B))
+		c := new(big.Rat)
+		if st.C != "" {
+			// a third operand: the comparison is applied to three arguments
+			var okC bool
+			if c, okC = new(big.Rat).SetString(st.C); !okC {
+				panic("bad operand " + st.C)
+			}
+			h.Eval(s, fmt.Sprintf("(setq nc %s)", st.C))
+		}
 		var src string
 		switch st.Op {
 		case "floor", "ceiling", "truncate", "round":
@@ -114,12 +124,19 @@ func c05(args []string) {
 			src = fmt.Sprintf("(%s na %d)", st.Op, st.K)
 		default:
 			src = fmt.Sprintf("(%s na nb)", st.Op)
+			if st.C != "" {
+				src = fmt.Sprintf("(%s na nb nc)", st.Op)
+			}
 		}
 		o := h.Eval(s, src)
 		ev := h.V{"t": st.ID, "op": st.Op, "a": c05RV(a), "b": c05RV(b), "st": "ok", "src": src + " ; " + st.A + " " + st.B,
 			"r": zeroR, "r2": zeroR, "q": c05Zero, "ty": "fixnum", "bool": false, "k": st.K,
 			"low": h.V{"s": c05Zero, "t": c05One}, "fb": st.FB, "fm": c05Zero, "fe": 0,
-			"cert": h.V{"ca": c05Zero, "cb": c05Zero, "sa": c05Zero, "sb": c05Zero}}
+			"cert": h.V{"ca": c05Zero, "cb": c05Zero, "sa": c05Zero, "sb": c05Zero}, "n": 2, "c": zeroR}
+		if st.C != "" {
+			ev["n"], ev["c"] = 3, c05RV(c)
+			ev["src"] = src + " ; " + st.A + " " + st.B + " " + st.C
+		}
 		if st.FB {
 			// the float operand exactly: mantissa * 2^exponent, as slip holds it after reading the literal
 			fo := h.Eval(s, "nb")
